@@ -30,6 +30,7 @@ ENCODINGS = [
     ("float/-1.0", [-1.0, 0.0, 1.0, 2.0], -1.0, float),
     ("int/-1", [-1, 0, 1, 2], -1, int),
     ("int10/0", [0, 10, 20, 30], 0, int),
+    ("int1/0", [0, 1, 2, 3], 0, int),  # the sentinel coincides with an encoded class index
     ("int/nan", [0, 1, 2], NAN, int),
     ("str/empty", ["", "a", "b", "c"], "", str),
     ("str/nan", ["nan", "a", "b", "c"], "nan", str),
@@ -44,7 +45,7 @@ ENCODINGS = [
 def bounds(tier):
     return {
         "encodings": [e[0] for e in ENCODINGS],
-        "containers": ["ndarray", "list"],
+        "containers": ["ndarray", "list", "ndarray-F (Fortran-ordered 2-D arrays, strided 1-D views)"],
         "max_len_1d": 3 if tier == "quick" else 4,
         "shapes_2d": [[1, 1], [1, 2], [2, 1], [2, 2], [0, 2], [2, 0]] if tier == "quick" else [[1, 1], [1, 2], [2, 1], [2, 2], [3, 2], [0, 2], [2, 0]],
         "encoder_fit_len": 2 if tier == "quick" else 4,
@@ -65,6 +66,17 @@ def is_missing(v, ml):
 
 
 def mk(vals, shape, dtype, container):
+    if container == "ndarray-F":
+        # same values in another memory layout: Fortran order for 2-D arrays (e.g. `np.array([annot_1, annot_2]).T`), a strided view
+        # of a longer buffer for 1-D arrays
+        a = mk(vals, shape, dtype, "ndarray")
+        if a.ndim == 2:
+            return np.asfortranarray(a)
+        buf = np.empty(2 * len(a) + 1, dtype=a.dtype)
+        buf[...] = a[0] if len(a) else (0 if a.dtype.kind in "iuf" else None if a.dtype == object else "")
+        v = buf[1::2][: len(a)]
+        v[...] = a
+        return v
     if container == "list":
         a = np.empty(len(vals), dtype=object)
         a[:] = vals
@@ -81,7 +93,7 @@ def mk(vals, shape, dtype, container):
 def shards(tier, seed):
     out = []
     for i, e in enumerate(ENCODINGS):
-        for cont in ("ndarray", "list"):
+        for cont in ("ndarray", "list", "ndarray-F"):
             out.append({"tier": tier, "enc": i, "container": cont})
     return out
 
